@@ -42,7 +42,7 @@ func main() {
 	h := &harness{f: f, res: res, r: lib.NewRNG(f.Seed)}
 	drv, err := lib.StartDriver(f.Driver)
 	if err != nil {
-		res.Note("driver: %v", err)
+		res.Fatalf("driver: %v", err)
 		lib.Finish(f, res)
 	}
 	defer drv.Close()
@@ -74,7 +74,7 @@ func main() {
 func (h *harness) replay(path string) {
 	raw, err := os.ReadFile(path)
 	if err != nil {
-		h.res.Note("replay: %v", err)
+		h.res.Fatalf("replay: %v", err)
 		return
 	}
 	var doc struct {
@@ -82,7 +82,7 @@ func (h *harness) replay(path string) {
 		Replay json.RawMessage `json:"replay"`
 	}
 	if err := json.Unmarshal(raw, &doc); err != nil {
-		h.res.Note("replay: %v", err)
+		h.res.Fatalf("replay: %v", err)
 		return
 	}
 	h.probes()
@@ -101,7 +101,7 @@ func (h *harness) replay(path string) {
 	if strings.HasPrefix(doc.Sig, "blocktx-") {
 		var rp btReplay
 		if err := json.Unmarshal(doc.Replay, &rp); err != nil {
-			h.res.Note("replay: %v", err)
+			h.res.Fatalf("replay: %v", err)
 			return
 		}
 		h.blockTxImage(rp.Spec, "replay")
@@ -126,5 +126,5 @@ func (h *harness) replay(path string) {
 		h.runnerHistoryCase(hist, "replay")
 		return
 	}
-	h.res.Note("replay: no replayer for sig %q", doc.Sig)
+	h.res.Fatalf("replay: no replayer for sig %q", doc.Sig)
 }
